@@ -13,6 +13,8 @@ import (
 	"fmt"
 	"io"
 	"net"
+	"os"
+	"path/filepath"
 	"strings"
 	"sync"
 	"time"
@@ -237,6 +239,7 @@ func (sh *c20Shared) earlier() string {
 }
 
 type c20Broker struct {
+	onRequest   func(id, myAddress string) // called with every request's connect id and return address
 	shared      *c20Shared
 	addr        string
 	ln          net.Listener
@@ -263,6 +266,9 @@ func startC20Broker(script []string) (*c20Broker, error) {
 		}
 		id := ccb.AdString(ad, ccb.AttrClaimID)
 		my := strings.Trim(ccb.AdString(ad, ccb.AttrMyAddress), "<>")
+		if b.onRequest != nil {
+			b.onRequest(id, ccb.AdString(ad, ccb.AttrMyAddress))
+		}
 		b.mu.Lock()
 		b.reqs++
 		b.opened = append(b.opened, c.Stream.GetConnection())
@@ -429,6 +435,61 @@ func c20DialOne(res *vlib.Result, script []string) string {
 	return outcome
 }
 
+// c20Unguessable: a standard-mode dial whose reverse-connect port is a shared-port
+// endpoint with an anonymous name. Everything the dial makes public about that
+// endpoint - the return address sent to the broker and the socket's file name in
+// the (listable) socket directory - must not give away the connect id.
+func c20Unguessable(res *vlib.Result) {
+	res.Evals++
+	res.Nontrivial++
+	dir := filepath.Join(verifDir(), ".build", fmt.Sprintf("c20s-%d", os.Getpid()))
+	_ = os.RemoveAll(dir)
+	_ = os.MkdirAll(dir, 0o700)
+	defer os.RemoveAll(dir)
+	b, err := startC20Broker([]string{"reply-fail"})
+	if err != nil {
+		res.Violate("C20/harness", "%v", err)
+		return
+	}
+	defer b.stop()
+	var id, my string
+	var names []string
+	b.onRequest = func(i, m string) {
+		id, my = i, m
+		if ents, err := os.ReadDir(dir); err == nil {
+			for _, e := range ents {
+				names = append(names, e.Name())
+			}
+		}
+	}
+	_, derr := ccb.Dial(context.Background(), []addresses.CCBContact{{BrokerAddr: b.addr, CCBID: "1", Raw: b.addr + "#1"}}, ccb.DialOptions{Security: c20Sec(), Stagger: -1, Timeout: 20 * time.Second,
+		SharedPortEndpoint: &ccb.SharedPortEndpointConfig{SharedPortAddr: "127.0.0.1:9618", SocketDir: dir}})
+	if id == "" {
+		res.Violate("C20/harness", "shared-port dial never reached the broker: %v", derr)
+		return
+	}
+	leaks := func(public string) bool {
+		for i := 0; i+8 <= len(id); i++ {
+			if strings.Contains(public, id[i:i+8]) {
+				return true
+			}
+		}
+		return false
+	}
+	if leaks(my) {
+		res.Violate("C20/connect-id-public/return-address", "the return address %q advertised for the reverse connection contains (part of) the request's connect id", my)
+	}
+	for _, n := range names {
+		if leaks(n) {
+			res.Violate("C20/connect-id-public/socket-name", "the endpoint socket %q in the shared-port socket directory contains (part of) the request's connect id", n)
+		}
+	}
+	if len(names) == 0 {
+		res.Outcome("shared-port-endpoint-not-listed")
+	}
+	res.Outcome("shared-port-endpoint-checked")
+}
+
 // c20FreshID: n brokers, the first one asked fails, the next one sees a rogue
 // presenting the earlier request's connect id before the legitimate connection.
 func c20FreshID(res *vlib.Result, n int, stagger time.Duration) {
@@ -528,7 +589,7 @@ func c20MultiBroker(res *vlib.Result, working []bool, stagger time.Duration) {
 func C20Plan() *vlib.Plan {
 	p := &vlib.Plan{
 		Property: "C20", Level: "exploration",
-		Rule:   "E-ENUM of arrival orders. (1) accept loop (in-package seam) over a scripted listener: all sequences of length <= L over 11 connection kinds {legit id, wrong id, empty id, id of an earlier request, 39-char prefix of the id, non-hello command, garbage, truncated hello, oversized ad, immediate close, hello without id}; the returned conn must be the first one that presented the id, every earlier one closed, none returned otherwise. (2) proxied request over a scripted broker stream: 11 reply shapes; a conn only after success + matching hello. (3) Dial in standard mode against in-process brokers on loopback TCP: every ordering of {reply-ok, reply-fail} x {legit, 4 rogue kinds} up to 3 events (a rogue's turn ends when it observes its own close), each run twice; 1-3 brokers with every working subset x stagger {-1, 20 ms}: the returned conn delivers the token written on the legit reverse connection. (4) 10^4 generated connect ids are 40 hex characters and pairwise distinct. Non-trivial = at least one connection/reply consumed by the dialer. (4) connect-id freshness per request: 2 and 3 scripted brokers sharing one scenario (whichever is asked first fails; the next lets a rogue present the EARLIER request's id, then the legitimate connection), sequential and staggered: all requests of one dial carry distinct ids and the rogue is never returned.",
+		Rule:   "E-ENUM of arrival orders. (1) accept loop (in-package seam) over a scripted listener: all sequences of length <= L over 11 connection kinds {legit id, wrong id, empty id, id of an earlier request, 39-char prefix of the id, non-hello command, garbage, truncated hello, oversized ad, immediate close, hello without id}; the returned conn must be the first one that presented the id, every earlier one closed, none returned otherwise. (2) proxied request over a scripted broker stream: 11 reply shapes; a conn only after success + matching hello. (3) Dial in standard mode against in-process brokers on loopback TCP: every ordering of {reply-ok, reply-fail} x {legit, 4 rogue kinds} up to 3 events (a rogue's turn ends when it observes its own close), each run twice; 1-3 brokers with every working subset x stagger {-1, 20 ms}: the returned conn delivers the token written on the legit reverse connection. (4) 10^4 generated connect ids are 40 hex characters and pairwise distinct. Non-trivial = at least one connection/reply consumed by the dialer. (4) connect-id freshness per request: 2 and 3 scripted brokers sharing one scenario (whichever is asked first fails; the next lets a rogue present the EARLIER request's id, then the legitimate connection), sequential and staggered: all requests of one dial carry distinct ids and the rogue is never returned. (5) a dial whose reverse-connect port is an anonymous shared-port endpoint: neither the advertised return address nor the socket's file name contains any 8-character piece of the connect id.",
 		Assume: []string{"(3) uses real loopback TCP and goroutines: where a failure reply and the matching hello are both available either documented outcome is accepted", "the 'nothing decisive arrives' scripts rely on the dial's own 300 ms timeout"},
 	}
 	p.Gen = func(tier string, yield func(vlib.Case)) {
@@ -627,6 +688,11 @@ func C20Plan() *vlib.Plan {
 				return res
 			}})
 		}
+		yield(vlib.Case{ID: "shared-port-endpoint/anonymous-name", Run: func() *vlib.Result {
+			res := &vlib.Result{}
+			c20Unguessable(res)
+			return res
+		}})
 		for n := 2; n <= 3; n++ {
 			for _, st := range []time.Duration{-1, 20 * time.Millisecond} {
 				n, st := n, st
